@@ -68,6 +68,10 @@ def run(ctx):
     ctx.section(regions_and_dead)
     ctx.section(kill_gate)
     ctx.section(records)
+    ctx.rule('R-C11f', 'nothing is delivered after unregistration: the delivery loop re-tests the per-thread handled-interest marker before '
+                       'each handler call and touches the interest afterwards only behind it; unregister clears that marker when it '
+                       'designates the interest (shared with C01)', floor=2)
+    ctx.section(delivery)
 
 
 def cmp_rules(ctx):
@@ -261,3 +265,20 @@ def records(ctx):
             bad += [p for p in pts if mp.get(p) is False]
             ctx.ob('R-C11e', '%s:%s-record-freed' % (fq, what), not bad, loc=d['loc'],
                    detail='each %s status record is freed before the next one is taken / the function returns' % what, fn=f.q)
+
+
+def delivery(ctx):
+    import types
+    from . import c01
+    sub = []
+    proxy = types.SimpleNamespace(prog=ctx.prog, ob=lambda rid, inst, ok, **kw: sub.append((rid, inst, ok, kw)),
+                                  exempt=lambda *a, **k: None)
+    c01.holders(proxy)
+    c01.stale(proxy)
+    n = 0
+    for rid, inst, ok, kw in sub:
+        if inst.startswith('holder:marker iv_wait_interest') or inst.startswith('iv_wait_completion:'):
+            n += 1
+            ctx.ob('R-C11f', inst, ok, **kw)
+    if n < 2:
+        raise AnalysisBroken('wait delivery marker rules not found')
